@@ -441,7 +441,7 @@ def jobs(tier):
         for N in ([67, 300] if q else [67, 131, 300, 1031]):
             if kind == "mmd" and N > 131:
                 continue
-            if q and (lab in ("H2-ovo", "MMD-ovo") or (lab == "H2-ova" and N > 67)):
+            if q and lab in ("H2-ovo", "MMD-ovo", "H2-ova"):
                 continue   # minutes: thorough tier
             out.append({"name": f"long/{lab}/N{N}/rows3K2", "target": "checks.c02:job",
                         "kwargs": dict(label=lab, n=3, Kc=2, long_n=N, timeout_q=(20.0 if q else 300.0)), "timeout": (300 if q else 2400)})
